@@ -34,6 +34,7 @@ from __future__ import annotations
 
 import copy
 import math
+import os
 import warnings
 
 import numpy as np
@@ -50,7 +51,9 @@ from piquasso._simulators.connectors import NumpyConnector  # noqa: E402
 
 PID = "C16"
 LEVEL = "exploration"
-SHARDS = {"quick": 16, "thorough": 16}
+# (C16_QUICK_SHARDS: fewer worker processes on a machine without 8 free cores; the examples
+# and wall-clock budgets are totals, so this only trades evaluations for CPU)
+SHARDS = {"quick": int(os.environ.get("C16_QUICK_SHARDS", "8")), "thorough": 16}
 RULE = (
     "Hypothesis-generated program descriptions (lib/progs, lib/aprogs: d<=4 bosonic, d<=5 "
     "fermionic, <=7 instructions on ordered mode subsets drawn as permutation prefixes, "
@@ -91,17 +94,17 @@ ASSUMPTIONS = [
     "outcome-dependent parameters refer to outcome positions, which relabelling keeps",
     "excluded by construction (known findings, counted): passive simulator with >= 2 "
     "successive measurements and shots=None (C03:exact:P:sequential-measurements), passive "
-    "Kerr after a measurement (C13:valid-crash:P:kerr-after-measurement), passive exact "
-    "measurement of a proper subset of the remaining modes after a post-selection (found "
-    "here, C16:P:exact-measurement-after-postselection:remapped-modes; replayed on a fixed "
-    "grid by the part passive_postselect_measure)",
+    "Kerr after a measurement (C13:valid-crash:P:kerr-after-measurement); the finding "
+    "C16:P:exact-measurement-after-postselection:remapped-modes (fixed, 019b0db) is "
+    "searched again and also probed on a fixed grid by the part passive_postselect_measure",
     "finite-shot samples are not compared (samplers are not label-independent); sampling "
     "distributions are compared through the exact maps (shots=None weights, "
     "get_marginal_fock_probabilities)",
 ]
-# fractions of all evaluations of a quiet full run; measured values in the comment of parts()
-FLOORS = {"perm_moves_multimode": 0.15, "swap_with_multimode": 0.08,
-          "permuted_multimode_tuple": 0.05}
+# fractions of all evaluations; measured on loaded full runs at seeds 1-3: 0.15-0.20 / 0.13-0.17 /
+# 0.17-0.24 (the wall-clock budgets cut the parts unevenly, hence the wide margin)
+FLOORS = {"perm_moves_multimode": 0.08, "swap_with_multimode": 0.05,
+          "permuted_multimode_tuple": 0.03}
 
 TOL = 1e-9
 NC = NumpyConnector()
@@ -283,6 +286,16 @@ def index_permutation(base_state, new_state, perm):
 
 
 def compare_states(sim, a, b, perm, tag, marg=None, linear_only=False):
+    try:
+        _compare_states(sim, a, b, perm, tag, marg, linear_only)
+    except Violation:
+        raise
+    except Exception as e:  # an observable of a reachable state must not raise
+        raise Violation(f"C16:{tag}:{sim}:observable-raises:{type(e).__name__}",
+                        f"{type(e).__name__}: {str(e)[:300]}")
+
+
+def _compare_states(sim, a, b, perm, tag, marg=None, linear_only=False):
     """a: state of the base program; b: state of the transformed program, in which base
     mode k is called perm[k].  Raises Violation on the first difference."""
     d = len(perm)
@@ -403,7 +416,10 @@ def linear_only(gates):
 
 
 def point_mass(state):
-    p = np.real(np.asarray(state.fock_probabilities, dtype=complex))
+    try:
+        p = np.real(np.asarray(state.fock_probabilities, dtype=complex))
+    except Exception:  # reported by compare_states as observable-raises
+        return False
     return p.size == 0 or float(p.max()) >= 0.999
 
 
@@ -617,6 +633,14 @@ def relabel_meas_case(draw):
     for s in desc["steps"]:
         if s["k"] == "measure":
             s["m"], s["p"] = "ParticleNumberMeasurement", {}
+    last = desc["steps"][-1] if desc["steps"] else None
+    if last and last["k"] == "measure" and draw(st.integers(0, 2)) == 0:
+        # a final measurement of ALL remaining modes in a drawn order (the exact full-
+        # measurement branch of the passive simulator reorders the outcome itself)
+        rest = remaining_modes({**desc, "steps": desc["steps"][:-1]})
+        if len(rest) >= 2:
+            last["modes"] = draw(progs.ordered_modes(desc["d"], len(rest), rest))
+            last.pop("all_modes", None)
     perm = list(draw(st.permutations(list(range(desc["d"])))))
     return {"desc": desc, "perm": perm}
 
@@ -641,8 +665,8 @@ def passive_excluded(desc, ctx):
     if desc["sim"] != "P":
         return False
     if marginal_measurement_after_postselection(desc):
-        ctx.exclude(B_PPS)
-        return True
+        # trigger of the finding B_PPS (fixed in 019b0db): searched again since the fix
+        ctx.count("passive_marginal_measurement_after_postselection")
     if aprogs.kerr_after_measurement(desc):
         ctx.exclude("C13:valid-crash:P:kerr-after-measurement")
         return True
@@ -685,7 +709,7 @@ def prop_relabel_meas(case, ctx):
         ctx.count("branch_states_compared", n)
 
 
-# dedicated part for the confirmed finding B_PPS (its trigger is excluded from the search)
+# regression probe of the finding B_PPS (found by relabel_meas, fixed in 019b0db)
 
 def pps_cases(tier):
     out = []
@@ -713,7 +737,7 @@ def prop_pps(case, ctx):
     for dsc in (desc, relabel_adaptive(desc, perm), {**desc, "sim": "PF"}):
         try:
             out.append({k: v[0] for k, v in branch_table(run_adaptive(dsc)).items()})
-        except PiquassoException as e:
+        except Exception as e:
             raise Violation(B_PPS, f"{what}{'' if dsc is desc else ' (relabelled by ' + str(perm) + ')'}"
                                    f": refused with '{str(e)[:120]}' although the measured mode "
                                    f"is not post-selected")
@@ -911,6 +935,19 @@ def commute_active_case(draw):
 
 
 def prop_commute_active(case, ctx):
+    try:
+        _prop_commute_active(case, ctx)
+    except Violation:
+        raise
+    except Exception as e:  # leak measurement on the Gaussian simulator / observables
+        if type(e).__name__ == "BoundUnavailable":
+            ctx.count("no_cutoff_found")
+            return
+        raise Violation(f"C16:commute_active:raises:{type(e).__name__}",
+                        f"{type(e).__name__}: {str(e)[:300]}")
+
+
+def _prop_commute_active(case, ctx):
     c01 = _c01()
     sim, hbar = case["sim"], case["hbar"]
     base = {k: case[k] for k in ("d", "prep", "gates", "hbar")}
@@ -1102,6 +1139,16 @@ def f_prob_map(kind, state, d, cutoff=None):
 
 
 def f_compare(kind, a, b, perm, tag, desc):
+    try:
+        _f_compare(kind, a, b, perm, tag, desc)
+    except Violation:
+        raise
+    except Exception as e:
+        raise Violation(f"C16:{tag}:{kind}:observable-raises:{type(e).__name__}",
+                        f"{type(e).__name__}: {str(e)[:300]}")
+
+
+def _f_compare(kind, a, b, perm, tag, desc):
     d = len(perm)
     B = f"C16:{tag}:{kind}"
     ca, cb = np.asarray(a.covariance_matrix), np.asarray(b.covariance_matrix)
@@ -1256,7 +1303,10 @@ def prop_fermionic(case, ctx):
     kind, mode, d, gates, perm = case["kind"], case["mode"], case["d"], case["gates"], case["perm"]
     cl = [f"fermionic_{kind}_{mode}"]
     a = f_run(kind, case, gates, mode)
-    nonpoint = float(max(f_prob_map(kind, a, d).values())) < 0.999
+    try:
+        nonpoint = float(max(f_prob_map(kind, a, d).values())) < 0.999
+    except Exception:  # reported by f_compare as observable-raises
+        nonpoint = True
     if mode == "relabel":
         moved = multimode_moved(gates, perm)
         if moved:
@@ -1299,7 +1349,7 @@ def prop_fermionic(case, ctx):
 def parts(tier):
     return [
         Part("passive_postselect_measure", prop_pps, kind="enum", cases=pps_cases,
-             budget_s={"quick": 20, "thorough": 60}),
+             budget_s={"quick": 60, "thorough": 120}),
         Part("relabel", prop_relabel, strategy=relabel_case(),
              examples={"quick": 640, "thorough": 10000},
              budget_s={"quick": 35, "thorough": 1500}),
